@@ -23,6 +23,8 @@ type Solver struct {
 	Time    time.Duration
 	log     io.Writer
 	lastSat bool
+	witness *witness
+	Witnessed int
 	stack   []*Term
 	marks   []int
 }
@@ -84,6 +86,25 @@ func (s *Solver) Check(ts []*Term) string {
 		}
 	}
 	t0 := time.Now()
+	s.witness = nil
+	anyReal := false
+	for _, t := range seq {
+		if usesReal(t) {
+			anyReal = true
+			break
+		}
+	}
+	if anyReal && os.Getenv("SYMGO_NOWITNESS") == "" {
+		if w := tryWitness(seq); w != nil {
+			s.witness = w
+			s.Queries++
+			s.Sat++
+			s.Witnessed++
+			s.lastSat = true
+			s.Time += time.Since(t0)
+			return "sat"
+		}
+	}
 	k := 0
 	for k < len(s.stack) && k < len(seq) && s.stack[k] == seq[k] {
 		k++
@@ -148,6 +169,9 @@ func (s *Solver) Check(ts []*Term) string {
 		}
 	}
 	s.lastSat = r == "sat"
+	if d := time.Since(t0); d > 2*time.Second && os.Getenv("SYMGO_SLOWQ") != "" {
+		fmt.Fprintf(os.Stderr, "slow query #%d: %s after %.1fs (%d assertions, real=%v)\n", s.Queries, r, d.Seconds(), len(ts), hasReal)
+	}
 	s.Time += time.Since(t0)
 	return r
 }
@@ -195,6 +219,29 @@ func parseRat(v string) (string, bool) {
 
 func (s *Solver) Values(ts []*Term) []uint64 {
 	res := make([]uint64, len(ts))
+	if s.witness != nil {
+		for i, t := range ts {
+			switch {
+			case t.IsConst():
+				res[i] = t.val
+			case t.w == -1:
+				if v, ok := s.witness.reals[t.id]; ok {
+					LastRats[t.name] = v.Num().String() + "/" + v.Denom().String()
+				} else {
+					LastRats[t.name] = "1/1"
+				}
+			case t.w == 0:
+				if s.witness.bools[t.id] {
+					res[i] = 1
+				}
+			default:
+				if x, ok := s.witness.bvs[t.id]; ok {
+					res[i] = x
+				}
+			}
+		}
+		return res
+	}
 	for i, t := range ts {
 		if t.IsConst() {
 			res[i] = t.val
@@ -239,7 +286,7 @@ func (s *Solver) Values(ts []*Term) []uint64 {
 	return res
 }
 
-func (s *Solver) Done() { s.lastSat = false }
+func (s *Solver) Done() { s.lastSat = false; s.witness = nil }
 
 func (s *Solver) Close() { s.in.Close(); s.cmd.Wait() }
 
